@@ -109,6 +109,41 @@ func collectLegit(f failer, cfg world.Cfg, dir string, raw []byte) (*legit, []*c
 		}
 		w2.Close()
 		live.S.Class("other-key-reader-judged")
+		if cfg.Signature == "pgp" {
+			// ... and by a reader whose keyring is empty (an empty public key file parses to that)
+			d3 := filepath.Join(dir, "nokey")
+			_ = os.MkdirAll(filepath.Join(d3, "drv"), 0700)
+			drv3 := filepath.Join(d3, "drv", "drive.tar")
+			_ = os.WriteFile(drv3, raw, 0600)
+			var w3 *world.World
+			var err3 error
+			checkObs(f, hist.Call("construct empty-keyring reader", func() {
+				w3, err3 = world.New(cfg, world.Opts{Dir: d3, Drive: drv3, EmptySigKeyring: true, NoInit: true})
+			}), "construct")
+			if err3 != nil {
+				failf(f, "cannot construct the empty-keyring reader: %v", err3)
+			}
+			n3 := 0
+			var ierr3 error
+			checkObs(f, hist.Call("index with an empty keyring", func() {
+				ierr3 = w3.Reindex(true, func(*config.Header) { n3++ })
+			}), "index with an empty keyring")
+			rows3, _ := observe.IndexDump(w3.DB)
+			if ierr3 == nil || n3 > 0 || len(rows3) > 0 {
+				w3.Close()
+				failf(f, "a reader with an empty pgp keyring accepted the tape: err=%v, %d headers accepted, %d rows", ierr3, n3, len(rows3))
+			}
+			for _, h := range hs {
+				if h.Typeflag == int64(tar.TypeReg) {
+					if data, err := fetchAt(f, w3, h.Record, h.Block); err == nil {
+						w3.Close()
+						failf(f, "Fetch at (%d,%d) verified against an empty pgp keyring (%d bytes)", h.Record, h.Block, len(data))
+					}
+				}
+			}
+			w3.Close()
+			live.S.Class("empty-keyring-reader-judged")
+		}
 	}
 	for _, h := range hs {
 		k := headerKey(h)
